@@ -595,3 +595,42 @@ func BoundValue(fv *ssa.FreeVar) ssa.Value {
 	}
 	return nil
 }
+
+// ReturnValues lists the values that function f may return as result i, looking through the
+// spill of named results that go/ssa introduces when the function has a defer (the result is
+// stored to a local and re-loaded after rundefers).
+func ReturnValues(f *ssa.Function, i int) []ssa.Value {
+	var out []ssa.Value
+	seen := map[ssa.Value]bool{}
+	Instrs(f, func(in ssa.Instruction) {
+		ret, ok := in.(*ssa.Return)
+		if !ok || i >= len(ret.Results) {
+			return
+		}
+		for _, v := range SpillSources(ret.Results[i]) {
+			if !seen[v] {
+				seen[v] = true
+				out = append(out, v)
+			}
+		}
+	})
+	return out
+}
+
+// SpillSources: if v is a load of a local Alloc, the values stored into it; else v itself.
+func SpillSources(v ssa.Value) []ssa.Value {
+	if u, ok := v.(*ssa.UnOp); ok && u.Op == token.MUL {
+		if a, ok := u.X.(*ssa.Alloc); ok {
+			var out []ssa.Value
+			for _, ref := range Referrers(a) {
+				if st, ok := ref.(*ssa.Store); ok && st.Addr == ssa.Value(a) {
+					out = append(out, st.Val)
+				}
+			}
+			if len(out) > 0 {
+				return out
+			}
+		}
+	}
+	return []ssa.Value{v}
+}
